@@ -340,7 +340,9 @@ func runBehaviour(t *testing.T, in *vio.Input, bi int, b vio.Behaviour, v varian
 	relayAddr := net.UDPAddrFromAddrPort(addr)
 	seq := map[string]int{}
 	cleanupsSeen := map[string]int{}
-	sendIdx := map[string]int{}
+	queued := map[string][]string{}   // payloads queued to the session's send channel, in order
+	curPayload := map[string]string{} // the payload the uplink is working on
+	replyFrom := map[string]string{}  // target the pending reply was sent from
 	lastTarget := map[string]string{}
 	// waitCleanup waits for the next not-yet-consumed cleanup signal of the session
 	waitCleanup := func(sess string, timeout time.Duration) bool {
@@ -414,6 +416,12 @@ func runBehaviour(t *testing.T, in *vio.Input, bi int, b vio.Behaviour, v varian
 			}
 			sentPayload[payload] = a.S
 			expectArrive[payload] = a.T
+			if a.Out == "new" {
+				queued[a.S] = nil
+			}
+			if a.Out != "dropped" {
+				queued[a.S] = append(queued[a.S], payload)
+			}
 			before := w.signalCount("relay.recv.enqueued", a.S)
 			if a.Out == "new" {
 				delete(natAddr, a.S)
@@ -461,6 +469,10 @@ func runBehaviour(t *testing.T, in *vio.Input, bi int, b vio.Behaviour, v varian
 				return
 			}
 		case "InitFail":
+			for _, p := range queued[a.S] {
+				delete(expectArrive, p)
+			}
+			queued[a.S] = nil
 			if !waitCleanup(a.S, stepTimeout) {
 				brk("rejected session was not cleaned up")
 				return
@@ -481,14 +493,24 @@ func runBehaviour(t *testing.T, in *vio.Input, bi int, b vio.Behaviour, v varian
 					brk("uplink did not start (at %q)", pt)
 					return
 				}
-			} else if !waitCleanup(a.S, stepTimeout) {
-				brk("aborted initialiser did not clean up")
-				return
+			} else {
+				for _, p := range queued[a.S] {
+					delete(expectArrive, p)
+				}
+				queued[a.S] = nil
+				if !waitCleanup(a.S, stepTimeout) {
+					brk("aborted initialiser did not clean up")
+					return
+				}
 			}
 		case "UpDequeue":
 			if pt, ok := w.waitParked(a.S, "uplink", stepTimeout, "relay.uplink.beforePack"); !ok {
 				brk("uplink did not dequeue (at %q)", pt)
 				return
+			}
+			if len(queued[a.S]) > 0 {
+				curPayload[a.S] = queued[a.S][0]
+				queued[a.S] = queued[a.S][1:]
 			}
 			if a.T == "a" || a.T == "b" {
 				w.release(a.S, "uplink")
@@ -526,6 +548,9 @@ func runBehaviour(t *testing.T, in *vio.Input, bi int, b vio.Behaviour, v varian
 				}
 			}
 			// "cancelled": the lookup fails because shutdown has begun; the packet is dropped, nothing to wait for
+			if a.Out == "cancelled" {
+				delete(expectArrive, curPayload[a.S])
+			}
 		case "PackSto":
 			if !w.release(a.S, "uplink") {
 				brk("uplink not parked")
@@ -560,19 +585,12 @@ func runBehaviour(t *testing.T, in *vio.Input, bi int, b vio.Behaviour, v varian
 			dl := time.Now().Add(stepTimeout)
 			for {
 				checkArrivals(si)
-				left := false
-				for p := range expectArrive {
-					if strings.HasPrefix(p, fmt.Sprintf("%s#%d>", a.S, sendIdx[a.S]+1)) {
-						left = true
-					}
-				}
-				if !left {
-					sendIdx[a.S]++
+				if _, outstanding := expectArrive[curPayload[a.S]]; !outstanding {
 					break
 				}
 				if time.Now().After(dl) {
-					fail("relay.isolation/datagram-lost", fmt.Sprintf("the datagram of session %s for target %s left the uplink but reached no target", a.S, a.T), si, a.T, nil)
-					sendIdx[a.S]++
+					fail("relay.isolation/datagram-lost", fmt.Sprintf("datagram %q of session %s for target %s left the uplink but reached no target", curPayload[a.S], a.S, a.T), si, a.T, nil)
+					delete(expectArrive, curPayload[a.S])
 					break
 				}
 				time.Sleep(time.Millisecond)
@@ -594,6 +612,7 @@ func runBehaviour(t *testing.T, in *vio.Input, bi int, b vio.Behaviour, v varian
 				brk("no datagram of this session has reached a target yet")
 				return
 			}
+			replyFrom[a.S] = lastTarget[a.S]
 			from := e.targets[lastTarget[a.S]]
 			if _, err := from.Conn.WriteToUDPAddrPort([]byte("re:"+a.S), na); err != nil {
 				brk("%v", err)
@@ -615,7 +634,7 @@ func runBehaviour(t *testing.T, in *vio.Input, bi int, b vio.Behaviour, v varian
 				src, payload, err := relayenv.ParseSocks5UDP(d.Payload)
 				if err != nil || string(payload) != "re:"+a.S {
 					fail("relay.isolation/reply-garbled", "the client received something else than the reply", si, "re:"+a.S, string(d.Payload))
-				} else if want := e.targets[lastTarget[a.S]].Addr.String(); src != want {
+				} else if want := e.targets[replyFrom[a.S]].Addr.String(); src != want {
 					fail("relay.isolation/reply-wrong-source", "the reply does not carry the true source", si, want, src)
 				}
 			}
